@@ -272,7 +272,7 @@ def gen_fn(g, header_words, block_lines):
     sig, _ = rw.rule_R5([Tok(t.kind, t.text, t.ws, t.line) for t in item.sig])
     body, _ = rw.rule_R5([Tok(t.kind, t.text, t.ws, t.line) for t in item.body])
     shown = opts.get("as", qual)
-    if "closure" in opts or "loopbody" in opts:
+    if "closure" in opts or "loopbody" in opts or "blockbody" in opts:
         opts["closure"] = opts["closure"].strip('"') if "closure" in opts else None
         if opts["closure"] is None:
             del opts["closure"]
@@ -306,6 +306,25 @@ def gen_fn(g, header_words, block_lines):
             if inner[0].text != "{":
                 inner = lex("{") + inner + lex("}")
             g.rule_log.append((qual, "R7 closure #%s |%s| lifted as `%s`" % (opts["closure"], params, fsig), 1))
+        elif "blockbody" in opts:
+            # blockbody="header text": the `{ … }` block that follows the anchor (e.g. the body of an `if let … =`)
+            bb = opts["blockbody"].strip('"')
+            ms = rw.find_matches(body, bb)
+            if len(ms) != 1:
+                raise RuleMismatch("%s: block anchor `%s` matched %d times (need 1)" % (qual, bb, len(ms)))
+            o = ms[0][1]
+            depth = 0
+            while o < len(body) and not (body[o].text == "{" and depth == 0):
+                if body[o].text in ("(", "["):
+                    depth += 1
+                elif body[o].text in (")", "]"):
+                    depth -= 1
+                o += 1
+            if o >= len(body):
+                raise RuleMismatch("%s: no block after anchor `%s`" % (qual, bb))
+            c = match_close(body, o)
+            inner = body[o:c + 1]
+            g.rule_log.append((qual, "R7 block after `%s` lifted as `%s`" % (bb, fsig), 1))
         else:
             lp = rw.loops(body)
             lb = opts["loopbody"].strip('"')
